@@ -144,6 +144,10 @@ func renderLayout(toks []specTok, layout int) string {
 				sb.WriteString("\n")
 			case 4:
 				sb.WriteString(" # note, (x] \n ")
+			case 5:
+				sb.WriteString("\t") // a single tab is white space like any other
+			case 6:
+				sb.WriteString("\r\n")
 			}
 		}
 		sb.WriteString(t.Txt)
@@ -256,7 +260,7 @@ func checkC09(rc *Run) error {
 	}
 
 	// (b) every sequence, in every layout, through the real parser
-	layouts := 5
+	layouts := 7
 	compared := 0
 	kinds := map[string]int{}
 	jobs := make(chan vec, 1024)
@@ -328,7 +332,7 @@ func checkC09(rc *Run) error {
 	rc.Set("laws_checked_on_model", []string{"PairLaw", "ParenLaw", "RejectLaw", "ArityLaw"})
 	rc.Set("exhaustive_up_to_length", maxLen)
 	rc.Set("exhaustive", nsh == 1)
-	rc.Assume("layouts: single space, minimal (abutting where the documented token rules allow), tabs/multi-space, newlines, `#` comments after every token")
+	rc.Assume("layouts: single space, minimal (abutting where the documented token rules allow), tabs/multi-space, newlines, `#` comments after every token, a single tab, CR LF")
 	rc.Assume("the token table (spec/ParserTable.tla) was frozen from the pinned tree and is the documented precedence table")
 	return nil
 }
